@@ -182,16 +182,8 @@ def check(world, tier):
         if cdef in done:
             continue
         done.add(cdef)
-        body = prog.bodies.get(cdef)
-        consts = set()
-        for blk in body.blocks:
-            for st in blk["stmts"]:
-                if st["k"] == "assign" and st["rv"]["k"] == "bin" and st["rv"]["op"] == "Eq":
-                    for side in ("l", "r"):
-                        cc = st["rv"][side].get("const")
-                        if cc is not None and cc.get("kind") in ("char", "int"):
-                            consts.add(int(cc["val"]))
-        e_.ob({47, 92} <= consts, "trim-both-separators", "leading '/' and '\\\\' are not both trimmed from the request filename (trimmed: %s)" % sorted(consts), e.loc,
+        consts = set(c for c in (47, 92) if predicate_accepts(world, cdef, c))
+        e_.ob({47, 92} <= consts, "trim-both-separators", "leading '/' and '\\\\' are not both trimmed from the request filename (trimmed: %s)" % sorted(chr(x) for x in consts), e.loc,
               sample={"trimmed characters": sorted(chr(x) for x in consts)})
         s0 = e.args[0]
     # "the configured directories": -rd / -sd are what Config says, whatever the flag order (shared with C17.a / C17.d)
